@@ -100,4 +100,9 @@ CONFIG = {
         "thorough": {'checks': 150000, 'shards': 14, 'timeout': 7200, 'shrinktime': '60s'},
         "assumptions": ['two runtime.GC() calls empty every sync.Pool (victim cache semantics)', 'with GOMAXPROCS(1) and GC off, Put followed by Get returns the same pooled object; histories where reuse was not observed still count but are not non-trivial'],
     },
+    'C06': {
+        "quick": {'checks': 20000, 'shards': 4, 'timeout': 900},
+        "thorough": {'checks': 800000, 'shards': 14, 'timeout': 3600, 'shrinktime': '60s'},
+        "assumptions": ['pointer-receiver methods are expected only on addressable values, as in Go', 'absent map keys are probed with index syntax only (.name on an absent key is left open by the statement)', 'the struct-field cache is process-global: cold-cache behaviour is exercised once per type per process'],
+    },
 }
